@@ -14,7 +14,7 @@ import subprocess
 import sys
 import time
 
-ROOT = '/verif'
+ROOT = os.environ.get('VERIF_ROOT', '/verif')
 SEEDED = ROOT + '/seeded'
 SCRATCH = '/tmp/seeded_confirm'
 ENV = dict(os.environ, CARGO_NET_OFFLINE='true')
@@ -130,11 +130,12 @@ def main():
             tier = 'thorough'
             args.remove('--thorough')
         run(args[0], args[1:] or None, tier)
-    elif cmd == 'matrix':
+    elif cmd in ('matrix', 'matrix-all'):
         ids = sys.argv[2:] or sorted(os.listdir(SEEDED))
+        allc = ['C%02d' % i for i in range(1, 21)] if cmd == 'matrix-all' else None
         for sid in ids:
             if os.path.exists(SEEDED + '/' + sid + '/meta.json'):
-                run(sid)
+                run(sid, allc)
     elif cmd == 'report':
         rows = []
         for sid in sorted(os.listdir(SEEDED)):
